@@ -47,6 +47,31 @@ def holdsC15 (t : Table) (ms : MinSupp) (lmax : Nat) (out : List (List Nat × Li
 def holdsC15Ext (t : Table) (ms : MinSupp) (lmax : Nat) (exts : List (List Nat)) : Bool :=
   (failsExt t ms lmax exts).isEmpty
 
+/-! ### the same checker for WIDE tables (few objects, many attributes)
+
+`allConcepts t` enumerates the subsets of the attributes; for a table with many attributes and few objects the
+concepts are enumerated through the transposed table instead (`Fca.C15.checker_via_transpose`: same verdict). -/
+
+/-- the concepts of `t` meeting the threshold, enumerated as the swapped concepts of the transposed table -/
+def meetingT (t : Table) (ms : MinSupp) : List (List Nat × List Nat) :=
+  ((allConcepts (transpose t)).map fun c => (c.2, c.1)).filter fun c => meets ms t.height c.1
+
+def failsExtT (t : Table) (ms : MinSupp) (lmax : Nat) (exts : List (List Nat)) : List String :=
+  let n := t.height
+  let top := List.range n
+  let isLeast := fun (A0 : List Nat) => exts.all fun A => subset A0 A
+  (if exts.all fun A => closure t A == A then [] else ["not-closed"]) ++
+  (if decide exts.Nodup then [] else ["duplicate"]) ++
+  (if exts.contains top then [] else ["no-top"]) ++
+  (if exts.any isLeast then [] else ["no-least"]) ++
+  (if exts.all fun A => A == top || isLeast A || meets ms n A then [] else ["support"]) ++
+  (if exts.length ≤ lmax + 2 then [] else ["count"]) ++
+  (if (meetingT t ms).length + 1 ≤ lmax && !((meetingT t ms).all fun c => exts.contains c.1)
+   then ["nonbinding-missing"] else [])
+
+def failsC15T (t : Table) (ms : MinSupp) (lmax : Nat) (out : List (List Nat × List Nat)) : List String :=
+  failsPairs t out ++ failsExtT t ms lmax (out.map (·.1))
+
 /-- random-forest miner: every returned extent is closed in `t` and the all-objects extent is present -/
 def failsRF (t : Table) (exts : List (List Nat)) : List String :=
   (if exts.all fun A => closure t A == A then [] else ["not-closed"]) ++
